@@ -102,17 +102,21 @@ Theorem C20_safe_backend_denies : forall m d, In (m, d) trait_methods ->
 Proof. exact safe_backend_denies. Qed.
 
 (** The tables of the code as it stands: no system function is labelled Pure, the modifier kinds are
-    classified as in the code, every row of effects_of respects its label up to the listed findings. *)
+    classified as in the code, every row of effects_of respects its label (no exceptions). *)
 Theorem C20_tables_consistent :
   forallb (fun np => negb (purity_eqb (snd np) Pure)) gen_sysops = true /\
   forallb (fun mp => purity_eqb (gen_lmod (fst mp)) (snd mp)) gen_mods = true /\
-  forallb (fun row => row_ok row || smem (fst row) label_exceptions) effects_of = true /\
+  forallb row_ok effects_of = true /\
   forallb (fun m => is_some (method_class (fst m))) trait_methods = true.
 Proof. exact (conj sysops_never_pure (conj gen_mods_ok (conj effects_respect_labels methods_classified))). Qed.
 
-(** Findings recorded: four operations whose label allows less than what they call. *)
-Theorem C20_labels_refuted_pre : forall op p, In (op, p) labels_snapshot -> label_ok p (effects op) = false.
+(** Record of four repaired findings (fix commits 1cead72, d78a439, 06086d8): with the labels of the
+    code before them, &fo, un-trace, un-dump and the implicit close of under called more than their label
+    allowed; with the labels of the code as it stands they do not. *)
+Theorem C20_labels_refuted_pre : forall op p, In (op, p) labels_pre -> label_ok p (effects op) = false.
 Proof. exact labels_refuted_pre. Qed.
+Theorem C20_labels_repaired : forall op, In op label_exceptions_pre -> row_ok (op, effects op) = true.
+Proof. exact labels_repaired. Qed.
 
 (** Non-vacuity: with concrete label-respecting semantics, a pure tree (a modifier running an
     operand twice around pure primitives, through a function call) is accepted and silent, while the
@@ -139,3 +143,4 @@ Print Assumptions C20_purity_subtree.
 Print Assumptions C20_safe_backend_denies.
 Print Assumptions C20_tables_consistent.
 Print Assumptions C20_labels_refuted_pre.
+Print Assumptions C20_labels_repaired.
